@@ -140,7 +140,7 @@ func registryAccesses(p *Prog, R *BusRoles) []regAccess {
 	// a key read back from the registration (h.eventType) is classified by what that
 	// field is assigned anywhere in the package
 	regKeyField = func(typ, field string) string {
-		if R.RegT == nil || typ != R.RegT.Obj().Name() {
+		if R.RegT == nil || typ == "" {
 			return ""
 		}
 		res := ""
@@ -338,7 +338,56 @@ func (R *BusRoles) shardOrigin(v ssa.Value) (kind string, key ssa.Value, idx ssa
 }
 
 func sameValue(a, b ssa.Value) bool {
-	return stripConv(a) == stripConv(b)
+	a, b = stripConv(a), stripConv(b)
+	if a == b {
+		return true
+	}
+	// the same field of the same (immutable) struct value
+	if fa, ok := a.(*ssa.Field); ok {
+		if fb, ok := b.(*ssa.Field); ok && fa.Field == fb.Field && sameValue(fa.X, fb.X) {
+			return true
+		}
+	}
+	// two loads of the same field of a local copy that is written once, as a whole
+	la, ok1 := a.(*ssa.UnOp)
+	lb, ok2 := b.(*ssa.UnOp)
+	if ok1 && ok2 && la.Op == token.MUL && lb.Op == token.MUL {
+		fa, ok1 := la.X.(*ssa.FieldAddr)
+		fb, ok2 := lb.X.(*ssa.FieldAddr)
+		if ok1 && ok2 && fa.Field == fb.Field && fa.X == fb.X {
+			if al, ok := fa.X.(*ssa.Alloc); ok && writtenOnceAsAWhole(al) {
+				return true
+			}
+		}
+	}
+	return false
+}
+
+// writtenOnceAsAWhole: the local struct al receives exactly one whole-value store and its
+// fields are only ever read (a spilled value receiver or a by-value copy).
+func writtenOnceAsAWhole(al *ssa.Alloc) bool {
+	stores := 0
+	for _, ref := range *al.Referrers() {
+		switch x := ref.(type) {
+		case *ssa.Store:
+			if x.Addr != ssa.Value(al) {
+				return false
+			}
+			stores++
+		case *ssa.FieldAddr:
+			for _, r2 := range *x.Referrers() {
+				if ld, ok := r2.(*ssa.UnOp); !ok || ld.Op != token.MUL {
+					if _, dbg := r2.(*ssa.DebugRef); !dbg {
+						return false
+					}
+				}
+			}
+		case *ssa.DebugRef:
+		default:
+			return false
+		}
+	}
+	return stores == 1
 }
 
 // ---------------------------------------------------------------------------
